@@ -83,4 +83,39 @@ theorem gen_decode_eq (src : Bytes) :
         cases tryFrom b.toNat (List.take (declaredLen src) (List.drop 9 src)) <;>
           simp [toOut, Rs.Out.withState, Rs.Out.shape, List.drop_drop]
 
+theorem toBe_eq_beBytes (w n : Nat) : Rs.toBe w n = beBytes w n := by
+  unfold beBytes
+  induction w generalizing n with
+  | zero => rfl
+  | succ w ih => simp [Rs.toBe, leBytes, ih]
+
+/-- what `encode` does to the buffer it is handed, as the model states it: the bytes of `Wire.encode` are appended -/
+def appendTo (dst : Bytes) (r : Res Bytes) : Rs.Out (Unit × Bytes) :=
+  match r with
+  | .ok b => .ok ((), dst ++ b)
+  | .err e => .err e
+  | .panic p => .panic p
+
+/-- The generated `encode` is the model's `encode`: it appends exactly the model's bytes to whatever the buffer held,
+    and refuses exactly when the model refuses (`Frame::{get_length, get_type, write_to_bytes}` instantiated with the
+    model's, built from the regenerated tables). -/
+theorem gen_encode_eq (f : Frame) (dst : Bytes) :
+    Rs.Out.shape (CodecFn.encode (fun f => toOut (getLength f)) getType
+        (fun f d => appendTo d (payloadBytes (writeBody f.kind) f.payload)) f dst)
+      = Rs.Out.shape (appendTo dst (encode f)) := by
+  unfold CodecFn.encode encode
+  cases hl : getLength f with
+  | err e => simp [hl, toOut, appendTo, Rs.Out.shape]
+  | panic p => simp [hl, toOut, appendTo, Rs.Out.shape]
+  | ok length =>
+    simp only [hl, toOut, CodecFn.validate_payload_length, maxMessageSize]
+    by_cases hbig : length > 1048576
+    · simp [hbig, appendTo, Rs.Out.shape]
+    · simp only [hbig, if_false]
+      cases hb : payloadBytes (writeBody f.kind) f.payload with
+      | err e => simp [hb, appendTo, Rs.Out.shape]
+      | panic p => simp [hb, appendTo, Rs.Out.shape]
+      | ok body =>
+        simp [hb, appendTo, Rs.Out.shape, Rs.Out.withState, Rs.putU64, Rs.putU8, toBe_eq_beBytes, lenMarkerSize]
+
 end Selium.Wire
